@@ -80,3 +80,16 @@ Definition chk_td_float (neg : bool) (k secs us : int) (xneg : bool) (mant ex : 
   let (m, e) := fbits x in
   Uint63.eqb m mant && Uint63.eqb e ex && Bool.eqb (PrimFloat.ltb x 0%float) xneg
   && (let (n, t) := td_of_float_days x in Uint63.eqb t rtotal && (Bool.eqb n rneg || Uint63.eqb rtotal 0)).
+
+(* ---- the closed statements proved in Proofs/C07Float.v / C07FloatSweep.v (named here so that Props/Findings need no number notations) *)
+(* every whole-second timedelta with -3 <= days < 3 (518,400 values) / -30 <= days < 30 (5,184,000 values) is read back exactly *)
+Definition exact_whole_seconds_3 : bool := whole_seconds_exact 3.
+Definition exact_whole_seconds_30 : bool := whole_seconds_exact 30.
+(* every microsecond value (10^6 each) of: the first and the last second of day 0 *)
+Definition exact_microseconds_day0 : bool := microseconds_exact false 0%uint63 0%uint63 && microseconds_exact false 0%uint63 86399%uint63.
+(* ... and of the last second of day 29, of day 20000 (~54 years) and the first second of day -1 *)
+Definition exact_microseconds_far : bool :=
+  microseconds_exact false 29%uint63 86399%uint63 && microseconds_exact false 20000%uint63 86399%uint63 && microseconds_exact true 1%uint63 0%uint63.
+(* timedelta(days=1000000, microseconds=1) and timedelta(days=77680, seconds=35904, microseconds=138270) *)
+Definition exact_1e6_days_1us : bool := td_float_exact false 1000000%uint63 0%uint63 1%uint63.
+Definition exact_77680_days : bool := td_float_exact false 77680%uint63 35904%uint63 138270%uint63.
